@@ -21,6 +21,21 @@ type PathProbe struct {
 	Split  [][]int       `json:"split"`
 	Ok     bool          `json:"ok"`
 	Node   model.Value   `json:"node"`
+	Q      [][]int       `json:"q"`
+	R      [][]int       `json:"r"`
+	Alg    *PathAlg      `json:"alg"`
+}
+
+// PathAlg: what PathsGen!AlgExpect prescribes for the derived paths of an "alg" probe.
+type PathAlg struct {
+	Parent [][]int `json:"parent"`
+	J1     [][]int `json:"j1"`
+	J2     [][]int `json:"j2"`
+	A1     [][]int `json:"a1"`
+	A2     [][]int `json:"a2"`
+	JJ     [][]int `json:"jj"`
+	Tail   [][]int `json:"tail"`
+	Last   []int   `json:"last"`
 }
 
 func ReplayPathProbe(p *PathProbe) (*run.Finding, int) {
@@ -28,6 +43,45 @@ func ReplayPathProbe(p *PathProbe) (*run.Finding, int) {
 		return &run.Finding{Step: -1, Target: target, Rule: rule, Class: class, Detail: detail}
 	}
 	switch p.Kind {
+	case "alg":
+		// Paths are values.  Derive several paths from SHARED parents (the way nested Focus calls and walks do), then
+		// look at all of them -- operands included -- once everything has been derived.
+		var P, Q, R, parent, j1, j2, a1, a2, jj, tail datamodel.Path
+		var last datamodel.PathSegment
+		if pn := model.Safe(func() {
+			P, Q, R = pathOf(p.Path), pathOf(p.Q), pathOf(p.R)
+			parent = P.Parent()
+			j1 = parent.Join(Q)
+			j2 = parent.Join(R)
+			t := P.Truncate(1)
+			a1 = t.AppendSegment(Q.Segments()[0])
+			a2 = t.AppendSegment(R.Segments()[0])
+			jj = j1.Join(R)
+			_ = j1.Join(Q) // a second child of j1, derived after jj
+			last = P.Last()
+			_, tail = P.Shift()
+			_ = P.Pop().AppendSegmentString("overwritten?")
+		}); pn != nil {
+			return fail("datamodel.Path", "PathsAreValues", "panic", fmt.Sprintf("%q, %q, %q: %v", pathSegs(p.Path), pathSegs(p.Q), pathSegs(p.R), pn)), 1
+		}
+		checks := 0
+		for _, c := range []struct {
+			name string
+			got  datamodel.Path
+			want [][]int
+		}{{"the operand p", P, p.Path}, {"the operand q", Q, p.Q}, {"the operand r", R, p.R}, {"p.Parent()", parent, p.Alg.Parent},
+			{"p.Parent().Join(q)", j1, p.Alg.J1}, {"p.Parent().Join(r)", j2, p.Alg.J2}, {"p.Truncate(1).AppendSegment(q[0])", a1, p.Alg.A1},
+			{"p.Truncate(1).AppendSegment(r[0])", a2, p.Alg.A2}, {"p.Parent().Join(q).Join(r)", jj, p.Alg.JJ}, {"tail of p.Shift()", tail, p.Alg.Tail}} {
+			checks++
+			if fmt.Sprint(segStrings(c.got)) != fmt.Sprint(pathSegs(c.want)) {
+				return fail("datamodel.Path", "PathsAreValues", "different-path", fmt.Sprintf("p=%q q=%q r=%q: %s reads %q after all paths were derived, specification %q",
+					pathSegs(p.Path), pathSegs(p.Q), pathSegs(p.R), c.name, segStrings(c.got), pathSegs(c.want))), checks
+			}
+		}
+		if last.String() != string(model.Bytes(p.Alg.Last)) {
+			return fail("datamodel.Path", "PathsAreValues", "different-segment", fmt.Sprintf("p.Last() = %q, specification %q", last.String(), string(model.Bytes(p.Alg.Last)))), checks
+		}
+		return nil, checks + 1
 	case "parse":
 		s := string(model.Bytes(p.Joined))
 		var back datamodel.Path
